@@ -3,11 +3,12 @@ import SamlVerif.Driver.SPStruct
 import SamlVerif.Driver.Codec
 import SamlVerif.Driver.Xmlenc
 import SamlVerif.Driver.IdP
+import SamlVerif.Driver.Logout
 
 open SamlVerif
 
 def allHandlers : List (String × Proto.P String) :=
-  Driver.SPStruct.handlers ++ Driver.Codec.handlers ++ Driver.XmlencD.handlers ++ Driver.IdPD.handlers
+  Driver.SPStruct.handlers ++ Driver.Codec.handlers ++ Driver.XmlencD.handlers ++ Driver.IdPD.handlers ++ Driver.LogoutD.handlers
 
 def answer (line : String) : String :=
   match (line.splitOn " ").filter (· ≠ "") with
